@@ -8,8 +8,20 @@ export GOFLAGS=-mod=mod GOPROXY=off GOSUMDB=off GOTOOLCHAIN=local
 export VERIF_ROOT="$(pwd)"
 BIN="$VERIF_ROOT/.bin"
 mkdir -p "$BIN"
+VERIF_BIN="$BIN/verif"
 build() {
   # the replace directive makes go re-hash /repo's working tree on every build
+  if [ -n "${VERIF_REPO:-}" ] && [ "$VERIF_REPO" != /repo ]; then
+    # a scratch tree (tools/mutant-wt.sh): own go.mod/go.sum pair and binary, /repo is not involved
+    tag=$(echo "$VERIF_REPO" | md5sum | cut -c1-10)
+    mkdir -p "$BIN/alt-$tag"
+    sed "s|=> /repo|=> $VERIF_REPO|" mc/go.mod > "$BIN/alt-$tag/go.mod"
+    cp -f "$VERIF_REPO/go.sum" "$BIN/alt-$tag/go.sum"
+    export VERIF_MODFILE="$BIN/alt-$tag/go.mod"
+    VERIF_BIN="$BIN/alt-$tag/verif"
+    (cd mc && go build -modfile="$VERIF_MODFILE" -o "$VERIF_BIN" ./cmd/verif) || { echo "HARNESS-ERROR: harness does not build against $VERIF_REPO" >&2; exit 2; }
+    return
+  fi
   (cd mc && cp -f /repo/go.sum go.sum 2>/dev/null; go build -o "$BIN/verif" ./cmd/verif) || { echo "HARNESS-ERROR: harness does not build against /repo's working tree" >&2; exit 2; }
 }
 case "${1:-}" in
@@ -17,18 +29,18 @@ case "${1:-}" in
     build
     # the reference kernel's own tests (big-number cross-check, independent formulations, symmetries)
     (cd mc && go test -count=1 ./exact) || { echo "HARNESS-ERROR: the exact kernel's self-tests fail" >&2; exit 1; }
-    "$BIN/verif" warm || exit 1
+    "$VERIF_BIN" warm || exit 1
     exit 0 ;;
   build)
     build
     exit 0 ;;
   replay)
     build
-    exec "$BIN/verif" replay "$2" ;;
+    exec "$VERIF_BIN" replay "$2" ;;
   C*)
     build
     export VERIF_TIER="${2:-quick}"
-    exec "$BIN/verif" "$1" ;;
+    exec "$VERIF_BIN" "$1" ;;
   *)
     echo "usage: $0 <Cxx> <quick|thorough> | replay <file> | setup" >&2; exit 2 ;;
 esac
